@@ -1,6 +1,6 @@
 (* C16 - prelude functions and macros compute what their documentation says.
    Only statements; proofs in Eval/PreludeProofs.v. *)
-From PL Require Import Eval.EvalRules Eval.PreludeState Eval.PreludeProofs Eval.CatchProofs Eval.MacroProofs2 Eval.LengthProofs Eval.RangeProofs Eval.FoldProofs Eval.MapProofs Eval.ZipProofs Eval.LastProofs Eval.InitProofs Eval.FoldrProofs Eval.EnumerateProofs Eval.SumProofs Eval.CompareProofs Eval.MinusProofs Eval.DivideProofs.
+From PL Require Import Eval.EvalRules Eval.PreludeState Eval.PreludeProofs Eval.CatchProofs Eval.MacroProofs2 Eval.LengthProofs Eval.RangeProofs Eval.FoldProofs Eval.MapProofs Eval.ZipProofs Eval.LastProofs Eval.InitProofs Eval.FoldrProofs Eval.EnumerateProofs Eval.SumProofs Eval.CompareProofs Eval.MinusProofs Eval.DivideProofs Eval.ConcatProofs.
 From Coq Require Import ZArith.
 From Coq Require Import String.
 Local Open Scope string_scope.
@@ -215,3 +215,17 @@ Theorem C16_minus_divide_spec :
   (forall z, divide_spec [z] = Z.quot 1 z) /\
   minus_ok [0; 9223372036854775807; 1]%Z = false /\ divide_ok [1; 0]%Z = false /\ divide_ok [100; 5; 2]%Z = true.
 Proof. repeat split. Qed.
+
+(* append (the primitive) on two lists is list concatenation; concat, as loaded from the prelude text, concatenates EVERY
+   list of lists - any number of lists of any lengths; it needs one level of recursion depth per LIST (premise) *)
+Theorem C16_append : forall f st a b la lb env d, list_to_vec a = Some la -> list_to_vec b = Some lb ->
+  call_native (S f) st (s "append") [a; b] env d = (st, ROk (vec_to_list (la ++ lb))).
+Proof. exact append_call. Qed.
+Print Assumptions C16_append.
+
+Theorem C16_concat : forall vals ls st d, Forall2 (fun v l => list_to_vec v = Some l) vals ls ->
+  has_prelude st -> (d + N.of_nat (List.length vals) + 3 <= MAXD)%N ->
+  exists fuel st' r, eval_loop fuel st co_body (co_env (vec_to_list vals)) pm d = (st', ROk r) /\ has_prelude st' /\
+                     list_to_vec r = Some (List.concat ls).
+Proof. exact concat_runs. Qed.
+Print Assumptions C16_concat.
